@@ -69,12 +69,19 @@ func init() {
 			g, n := int(atoi64(a[1])), int(atoi64(a[2]))
 			var mu sync.Mutex
 			seen := make(map[string]bool, g*n)
-			dups, bad := 0, 0
+			dups, bad, panics := 0, 0, 0
 			var wg sync.WaitGroup
 			for i := 0; i < g; i++ {
 				wg.Add(1)
 				go func(i int) {
 					defer wg.Done()
+					defer func() {
+						if r := recover(); r != nil {
+							mu.Lock()
+							panics++
+							mu.Unlock()
+						}
+					}()
 					local := make([]string, 0, n)
 					for j := 0; j < n; j++ {
 						m, _ := cidMsg([]string{"MSG", "EXT", "FWD", "PFM"}[(i+j)%4], "N")
@@ -99,7 +106,7 @@ func init() {
 				}(i)
 			}
 			wg.Wait()
-			return fmt.Sprintf("dups=%d bad=%d", dups, bad)
+			return fmt.Sprintf("dups=%d bad=%d panics=%d", dups, bad, panics)
 		}
 		m, opts := cidMsg(a[0], a[1])
 		id1, err := m.Chunk()
